@@ -1,5 +1,8 @@
 import ZbossModel.Props.C06
 #print axioms Zboss.Rx.C06_log_shape
+#print axioms Zboss.Rx.C06_log_shape_any_state
+#print axioms Zboss.Rx.C06_reopened_port
+#print axioms Zboss.Rx.C06_closed_port_writes_nothing
 #print axioms Zboss.Rx.C06_handler_irrelevant
 #print axioms Zboss.Rx.C06_ack_wellformed
 #print axioms Zboss.Rx.C06_per_frame
